@@ -543,10 +543,18 @@ fn cache_consistency(world: &World, ctx: &InsertionContext, report: &mut Report)
 /// (Solution-level aggregates are rebuilt by the library when a heuristic finishes; they are judged at every handover.)
 fn route_caches_after_insertion(goal: &GoalContext, ctx: &InsertionContext) -> Vec<(String, String)> {
     let mut errs = vec![];
+    // a PARTIAL solution (the contexts the decomposition works on hold a part of the tours and jobs): what is left of a shared
+    // reload resource depends on the whole solution and is by design not maintained there (the library refuses every
+    // insertion with resource demand in a partial solution instead); these per-activity Option entries are left out
+    let jobs_here = ctx.solution.routes.iter().map(|rc| rc.route().tour.job_count()).sum::<usize>() + ctx.solution.required.len() + ctx.solution.ignored.len() + ctx.solution.unassigned.len();
+    let partial = jobs_here != ctx.problem.jobs.size();
     let digest = |rc: &RouteContext| -> Vec<String> {
         let (mut d, _) = rc.state().verif_digest();
         // an absent entry and an empty collection say the same thing (e.g. group tags of a tour without grouped jobs)
         d.retain(|e| !e.ends_with("=[]"));
+        if partial {
+            d.retain(|e| !(e.contains("=[None") || e.contains("=[Some(")));
+        }
         d.extend(rc.route().tour.all_activities().map(|a| format!("sched:{}-{}", a.schedule.arrival, a.schedule.departure)));
         d
     };
